@@ -76,7 +76,7 @@ func NewEVMDownloader(
 		return nil, err
 	}
 
-	if fbt.Cmp(finality) > 0 {
+	if finalityRank(fbt) < finalityRank(finality) {
 		// if someone configured the syncer to query blocks by Safe or Finalized block
 		// finalized block type should be at least the same as the block finality
 		fbt = finality
@@ -104,6 +104,24 @@ func NewEVMDownloader(
 			fbt,
 		),
 	}, nil
+}
+
+// finalityRank orders the block tags by how final the block they name is. The numeric values of the tags
+// (pending -1, latest -2, finalized -3, safe -4) are not ordered that way: safe is numerically below finalized
+// although a safe block is less final than a finalized one.
+func finalityRank(tag *big.Int) int {
+	switch aggkittypes.BlockNumber(tag.Int64()) {
+	case aggkittypes.Pending:
+		return 0
+	case aggkittypes.Latest:
+		return 1
+	case aggkittypes.Safe:
+		return 2 //nolint:mnd
+	case aggkittypes.Finalized:
+		return 3 //nolint:mnd
+	default:
+		return 4 //nolint:mnd
+	}
 }
 
 // setStopDownloaderOnIterationN sets the block number to stop the downloader (just for unittest)
